@@ -250,6 +250,65 @@ def bytes_to_str(ctx, items):
     return Str(chars)
 
 
+def utf8_chunks(ctx, items):
+    """<[u8]>::utf8_chunks: → list of (valid chars, invalid bytes): each chunk is a maximal valid stretch followed by the maximal prefix of an
+    ill-formed sequence (1..3 bytes; empty only in the last chunk) — forks on byte classes like bytes_to_str"""
+    out, chars, i, n = [], [], 0, len(items)
+
+    def in_range(c, lo, hi):
+        return (lo <= c.v <= hi) if c.concrete else z3.And(z3.UGE(c.z(), lo), z3.ULE(c.z(), hi))
+    while i < n:
+        b = items[i]
+        if b.concrete:
+            v = b.v
+            cls = 1 if v < 0x80 else 2 if 0xC2 <= v <= 0xDF else 3 if 0xE0 <= v <= 0xEF else 4 if 0xF0 <= v <= 0xF4 else 0
+        else:
+            z = b.z()
+            cls = [1, 2, 3, 4, 0][ctx.choose([z3.ULT(z, 0x80), z3.And(z3.UGE(z, 0xC2), z3.ULE(z, 0xDF)), z3.And(z3.UGE(z, 0xE0), z3.ULE(z, 0xEF)),
+                                              z3.And(z3.UGE(z, 0xF0), z3.ULE(z, 0xF4)), z3.Or(z3.And(z3.UGE(z, 0x80), z3.ULT(z, 0xC2)), z3.UGT(z, 0xF4))])]
+        if cls == 1:
+            ch = SInt(b.v, "char") if b.concrete else mk_int(z3.ZeroExt(24, b.z()), "char")
+            if not ch.concrete:
+                ch.width = 1
+            chars.append(ch)
+            i += 1
+            continue
+        bad = 1 if cls == 0 else None
+        if bad is None:
+            for k in range(cls - 1):
+                if i + 1 + k >= n:
+                    bad = k + 1           # the sequence is cut off by the end of the input
+                    break
+                c = items[i + 1 + k]
+                lo, hi = 0x80, 0xBF
+                if k == 0 and cls == 3:
+                    j = (0 if b.v == 0xE0 else 1 if b.v == 0xED else 2) if b.concrete else ctx.choose([b.z() == 0xE0, b.z() == 0xED, z3.And(b.z() != 0xE0, b.z() != 0xED)])
+                    lo, hi = [(0xA0, 0xBF), (0x80, 0x9F), (0x80, 0xBF)][j]
+                if k == 0 and cls == 4:
+                    j = (0 if b.v == 0xF0 else 1 if b.v == 0xF4 else 2) if b.concrete else ctx.choose([b.z() == 0xF0, b.z() == 0xF4, z3.And(b.z() != 0xF0, b.z() != 0xF4)])
+                    lo, hi = [(0x90, 0xBF), (0x80, 0x8F), (0x80, 0xBF)][j]
+                if not ctx.decide(in_range(c, lo, hi)):
+                    bad = k + 1
+                    break
+        if bad is not None:
+            out.append((chars, list(items[i:i + bad])))
+            chars = []
+            i += bad
+            continue
+        zs = [z3.ZeroExt(24, x.z()) for x in items[i:i + cls]]
+        cp = (((zs[0] & 0x1F) << 6) | (zs[1] & 0x3F)) if cls == 2 else \
+             (((zs[0] & 0x0F) << 12) | ((zs[1] & 0x3F) << 6) | (zs[2] & 0x3F)) if cls == 3 else \
+             (((zs[0] & 0x07) << 18) | ((zs[1] & 0x3F) << 12) | ((zs[2] & 0x3F) << 6) | (zs[3] & 0x3F))
+        ch = mk_int(cp, "char")
+        if not ch.concrete:
+            ch.width = cls
+        chars.append(ch)
+        i += cls
+    if chars:
+        out.append((chars, []))
+    return out
+
+
 def ite(ctx, cond, a, b):
     """value-level if-then-else; forks only when the two values cannot be merged structurally"""
     if isinstance(cond, SBool):
@@ -1042,7 +1101,11 @@ def register_all(M):
     def str_from_utf8(c, m, a):
         s = bytes_to_str(c, as_items(a[0]))
         return err(Opaque("Utf8Error")) if s is None else ok(s)
-    M.add(r"core::str::from_utf8|std::str::from_utf8", str_from_utf8)
+    M.add(r"core::str::from_utf8|std::str::from_utf8|from_utf8|str::from_utf8", str_from_utf8)
+    M.add(r"core::slice::<impl \[u8\]>::utf8_chunks|core::str::lossy::<impl \[u8\]>::utf8_chunks",
+          lambda c, m, a: SeqIt([Agg("Utf8Chunk", None, [Str(v), Slice(inv, "u8")]) for v, inv in utf8_chunks(c, as_items(a[0]))]))
+    M.add(r"(?:core::str::lossy::|std::str::)?Utf8Chunk::valid", lambda c, m, a: deref(a[0]).fields[0])
+    M.add(r"(?:core::str::lossy::|std::str::)?Utf8Chunk::invalid", lambda c, m, a: deref(a[0]).fields[1])
 
     def from_utf8_lossy(c, m, a):
         items = as_items(a[0])
